@@ -3,7 +3,7 @@ from .grammar import line as line_rule
 from .program import Program
 from .stmt import (
     Block, IfBeginStmt, ElseStmt, ElseIfStmt, SelectStmt, CaseStmt,
-    CaseElseStmt, IfStmt,
+    CaseElseStmt, IfStmt, TypeStmt, VarDeclClause,
 )
 from .exceptions import SyntaxError
 
@@ -72,6 +72,14 @@ def parse_string(input_string):
                         loc=stmt.loc_start,
                         msg=(f'{stmt.node_name()} without '
                              f'{owner.node_name()}'))
+                # a field declaration (name AS type) is a statement
+                # of TYPE blocks only
+                if isinstance(stmt, VarDeclClause) and (
+                        not entered_blocks or
+                        not isinstance(entered_blocks[-1][0], TypeStmt)):
+                    raise SyntaxError(
+                        loc=stmt.loc_start,
+                        msg='Field declaration outside TYPE block')
                 cur_block_body.append(stmt)
 
         line_loc += len(line) + 1
@@ -94,7 +102,7 @@ def check_single_line_if(if_stmt, block_stmt_types):
             check_single_line_if(stmt, block_stmt_types)
         elif isinstance(stmt, block_stmt_types) or \
                 isinstance(stmt, (ElseStmt, ElseIfStmt, CaseStmt,
-                                  CaseElseStmt)):
+                                  CaseElseStmt, VarDeclClause)):
             raise SyntaxError(
                 loc=stmt.loc_start,
                 msg=(f'{stmt.node_name()} not allowed in a '
